@@ -5,6 +5,7 @@ import time
 from typing import TYPE_CHECKING
 
 from aiohttp.client import ClientSession, ClientTimeout, TCPConnector
+from lxml import etree
 
 from sdc11073 import commlog, observableproperties
 from sdc11073.httpserver.compression import CompressionHandler
@@ -148,6 +149,13 @@ class SoapClientAsync:
 
         finally:
             self.roundtrip_time = time.perf_counter() - started  # set roundtrip time even if method raises an exception
+        if resp.status >= 300:  # noqa: PLR2004
+            # same handling as in the synchronous SoapClient: an HTTP error status is a failed request, with or without soap fault
+            try:
+                tmp = self._msg_reader.read_received_message(xml_response.encode('utf-8'))
+            except etree.XMLSyntaxError as ex:
+                raise HTTPReturnCodeError(resp.status, resp.reason, None) from ex
+            raise HTTPReturnCodeError(resp.status, resp.reason, Fault.from_node(tmp.p_msg.msg_node))
         if not xml_response:  # empty response
             return None
 
